@@ -214,44 +214,55 @@ struct ConfiguredLogger {
 }
 
 impl ConfiguredLogger {
+    // `add`, `max_log_level` and `drop` walk the tree with loops, not with recursion: a logger
+    // name may have any number of `::` components and must not be able to exhaust the stack.
     fn add(&mut self, path: &str, mut appenders: Vec<usize>, additive: bool, level: LevelFilter) {
-        let (part, rest) = match path.find("::") {
-            Some(idx) => (&path[..idx], &path[idx + 2..]),
-            None => (path, ""),
-        };
+        let mut node = self;
+        let mut path = path;
 
-        if let Some(child) = self.children.get_mut(part) {
-            child.add(rest, appenders, additive, level);
-            return;
-        }
+        loop {
+            let (part, rest) = match path.find("::") {
+                Some(idx) => (&path[..idx], &path[idx + 2..]),
+                None => (path, ""),
+            };
 
-        let child = if rest.is_empty() {
-            if additive {
-                appenders.extend(self.appenders.iter().cloned());
+            if node.children.contains_key(part) {
+                node = node.children.get_mut(part).unwrap();
+                path = rest;
+                continue;
             }
 
-            ConfiguredLogger {
-                level,
-                appenders,
-                children: FnvHashMap::default(),
+            if rest.is_empty() {
+                if additive {
+                    appenders.extend(node.appenders.iter().cloned());
+                }
+
+                let child = ConfiguredLogger {
+                    level,
+                    appenders,
+                    children: FnvHashMap::default(),
+                };
+                node.children.insert(part.to_owned(), child);
+                return;
             }
-        } else {
-            let mut child = ConfiguredLogger {
-                level: self.level,
-                appenders: self.appenders.clone(),
+
+            // an intermediate logger that is not configured itself behaves like its parent
+            let child = ConfiguredLogger {
+                level: node.level,
+                appenders: node.appenders.clone(),
                 children: FnvHashMap::default(),
             };
-            child.add(rest, appenders, additive, level);
-            child
-        };
-
-        self.children.insert(part.to_owned(), child);
+            node = node.children.entry(part.to_owned()).or_insert(child);
+            path = rest;
+        }
     }
 
     fn max_log_level(&self) -> LevelFilter {
         let mut max = self.level;
-        for child in self.children.values() {
-            max = cmp::max(max, child.max_log_level());
+        let mut pending: Vec<&ConfiguredLogger> = self.children.values().collect();
+        while let Some(node) = pending.pop() {
+            max = cmp::max(max, node.level);
+            pending.extend(node.children.values());
         }
         max
     }
@@ -287,6 +298,16 @@ impl ConfiguredLogger {
             Ok(())
         } else {
             Err(errors)
+        }
+    }
+}
+
+impl Drop for ConfiguredLogger {
+    fn drop(&mut self) {
+        // take the descendants out level by level so that dropping a node never recurses
+        let mut pending: Vec<ConfiguredLogger> = self.children.drain().map(|(_, child)| child).collect();
+        while let Some(mut node) = pending.pop() {
+            pending.extend(node.children.drain().map(|(_, child)| child));
         }
     }
 }
